@@ -17,7 +17,7 @@ pub(crate) fn page_impl(mem: Arc<[u8]>, page_number: PageNumber) -> PageImpl {
 // @functions PageNumber::{to_le_bytes,from_le_bytes,cmp,address_range}
 // @bound region < 2^20, order <= 20, index < 2^(20-order); page size 512 / region of 2^20 pages for address_range
 #[kani::proof]
-#[kani::unwind(4)]
+#[kani::unwind(8)]
 fn c04_page_number_codec_order() {
     let order: u8 = kani::any();
     kani::assume(order <= 20);
